@@ -651,13 +651,25 @@ class Driver:
                 for r in tt.recs:
                     if any(x not in have for x in r.refs):
                         return 'skip-dangling'
+        path = self.path
+        if self.kind.startswith('demo'):
+            # a changes layer given to the constructor is packed without
+            # garbage collection (one made by the constructor is collected
+            # on its own and refuses references into the base: C16's
+            # 'demopack' covers that)
+            if self.demo_kinds[1] == 'default':
+                return 'skip'
+            eff_gc = False if gc is None else gc
+            path = '/sim/Changes.fs' if self.demo_kinds[1] == 'file' \
+                else None
         pre = Log(m.txns)
         info = {'stop': stop, 'gc': eff_gc, 'raised': None, 'changed': False,
                 'pre': pre, 't': t}
         self.last_pack = info
-        before = self.sim.fs.read_bytes(self.path) \
-            if self.kind == 'file' and self.sim.fs.exists(self.path) \
-            else None
+        before = self.sim.fs.read_bytes(path) \
+            if path and (self.kind == 'file' or
+                         self.kind.startswith('demo')) \
+            and self.sim.fs.exists(path) else None
         try:
             if gc is None:
                 st.pack(t, referencesf)
@@ -666,7 +678,7 @@ class Driver:
             # a pack that frees nothing leaves the file (and its back
             # pointers) as it is
             info['rewritten'] = before is None or \
-                self.sim.fs.read_bytes(self.path) != before
+                self.sim.fs.read_bytes(path) != before
         except Exception as e:      # noqa: B902
             info['raised'] = e
             # a pack that cannot complete leaves the database unchanged
@@ -718,12 +730,26 @@ class Driver:
         new_txns = []
         by_tid = {t.tid: t for t in pre.txns}
         seen_tids = set()
+        # a demo storage packs its changes layer only: what the base holds
+        # stays as it is, whatever the pack time
+        base_tids = {t.tid for t in self.base_driver.model.txns} \
+            if self.kind.startswith('demo') else set()
         for tid, status, user, desc, ext, recs in got:
             mt = by_tid.get(tid)
             if mt is None:
                 self.flag('pack-invents', 'transaction %r appeared' % tid)
                 continue
             seen_tids.add(tid)
+            if tid in base_tids:
+                want = [(r.oid, r.data) for r in mt.recs]
+                if status != mt.status or (
+                        sorted(recs, key=_k) != sorted(want, key=_k)
+                        if self.caps.get('iter_sorted') else recs != want):
+                    self.flag('pack-changed-base', 'transaction %r of the '
+                              'base reads differently after a pack through '
+                              'the demo storage' % tid)
+                new_txns.append(mt)
+                continue
             if (user, desc) != (mt.user, mt.desc) or \
                     _ext(ext) != _ext(mt.ext):
                 self.flag('pack-metadata', 'metadata of %r changed' % tid)
@@ -760,14 +786,19 @@ class Driver:
         # newest is promised to queries; older ones serve back pointers
         newest = {}
         for nt in new_txns:
-            if nt.tid <= stop:
+            if nt.tid <= stop and nt.tid not in base_tids:
                 for r in nt.recs:
                     newest[r.oid] = r
         for nt in new_txns:
-            if nt.tid <= stop:
+            if nt.tid <= stop and nt.tid not in base_tids:
                 for r in nt.recs:
                     if newest[r.oid] is not r:
                         r.shadow = True
+        for t in pre.txns:
+            if t.tid in base_tids and t.tid not in seen_tids:
+                self.flag('pack-changed-base', 'transaction %r of the base '
+                          'is gone after a pack through the demo storage'
+                          % t.tid)
         for t in later:
             if t.tid not in seen_tids:
                 self.flag('pack-later-txn', 'transaction %r after the pack '
